@@ -83,6 +83,12 @@ META = {
         level_note="A truncation error is accepted only when some tip has fewer than 1000 live ancestors (premise of the call) and then the ledger must be unchanged. Addresses whose true checkpointed net is negative (genesis issuer) are excluded from the funds equality. 'Truncation racing with proposals' is only sampled by C18.",
         technique="stateful property-based testing (rapid) with a twin-node differential and before/after metamorphic relations",
     ),
+    "C04": dict(
+        level_text="Complete single-bit-flip enumeration over every fixed-width field of sample vertices, a catalogue of structural mutations (truncate/extend/empty, byte shifts across adjacent signed fields, swaps with another valid vertex, re-signing by another wallet, stripping the receiver signature, address corruption and aliasing) at struct and wire level, plus random draws; each mutant must be rejected with the snapshot digest unchanged. Two wire-format holes are known findings keyed by mutation operator.",
+        design_ref="DESIGN.md §4 C04",
+        level_note="Mutants that equal the original in every signed field after decoding are trivial and not offered. Known findings taint the base ledger; the world is rebuilt after each and the excluded cases are counted.",
+        technique="property-based testing: mutation-based (metamorphic) generation over valid vertices, exhaustive single-bit flips, reject-and-unchanged oracle",
+    ),
 }
 
 def _na():
